@@ -34,6 +34,9 @@ pub struct Scenario {
     /// (<= 1e-7 absolute) but outside the library's 1e-8 (exercises the witness repair without a fault)
     #[serde(default)]
     pub legal_tolerance_answers: bool,
+    /// Fault mode: un-faulted calls are answered with a different correct witness (see lpseam)
+    #[serde(default)]
+    pub legal_when_unfaulted: bool,
 }
 
 #[derive(Clone, Debug, Serialize, Deserialize)]
@@ -263,6 +266,7 @@ impl Exec {
         let seam = lpseam::install(sc.mode, sc.fault_plan.clone(), seam_rng);
         seam.borrow_mut().faults_armed = false;
         seam.borrow_mut().tolerance_answers = sc.legal_tolerance_answers;
+        seam.borrow_mut().legal_when_unfaulted = sc.legal_when_unfaulted;
         let mut pool = Vec::new();
         let mut models = Vec::new();
         let mut stats = PwlStats::default();
@@ -1241,6 +1245,7 @@ pub fn seeded_history_run_traced(focus: &str, run_seed: u64, deep: bool, print: 
         // not for C06: an unrepaired in-tolerance point leaves a node Indeterminate, which is
         // "less pruning" and would make the effectiveness clauses a false-alarm source
         legal_tolerance_answers: mode == Mode::Legal && focus != "C06" && rng.chance(1, 2),
+        legal_when_unfaulted: false,
     };
     let mut violations = Vec::new();
     let mut ex = match Exec::new(&sc, true) {
@@ -1329,6 +1334,7 @@ fn run_suffix(prefix_pool: &[AffTree<2>], prefix_models: &[ModelTree], sc: &Scen
     let seam_rng = seed_rng.fork(1);
     let probe_rng = seed_rng.fork(2);
     let seam = lpseam::install(Mode::Fault, sc.fault_plan.clone(), seam_rng);
+    seam.borrow_mut().legal_when_unfaulted = sc.legal_when_unfaulted;
     let mut ex = Exec {
         pool: prefix_pool.to_vec(),
         models: prefix_models.to_vec(),
@@ -1390,6 +1396,7 @@ pub fn seeded_fault_scenario_traced(run_seed: u64, thorough: bool, print: bool) 
         fault_from_step: 0,
         fault_plan: FaultPlan::default(),
         legal_tolerance_answers: false,
+        legal_when_unfaulted: rng.chance(1, 3),
     };
     let mut stats = PwlStats::default();
     let mut result = FaultScenarioResult {
@@ -1494,8 +1501,19 @@ pub fn seeded_fault_scenario_traced(run_seed: u64, thorough: bool, print: bool) 
             }
         }
     };
-    // enumeration: every position x every kind
-    for pos in 0..n_calls {
+    // enumeration: every position x every kind (quick tier: at most 48 positions per scenario - the
+    // first 16, the last 16 and 16 seeded ones in between; counted as a partial enumeration)
+    let positions: Vec<usize> = if thorough || n_calls <= 48 {
+        (0..n_calls).collect()
+    } else {
+        let mut set: BTreeSet<usize> = (0..16).chain(n_calls - 16..n_calls).collect();
+        while set.len() < 48 {
+            set.insert(16 + rng.below(n_calls - 32));
+        }
+        bump(&mut stats.probes, "scenario with more than 48 LP calls: single-fault enumeration restricted to 48 positions", 1);
+        set.into_iter().collect()
+    };
+    for pos in positions {
         for kind in &menu {
             let mut plan = FaultPlan::default();
             plan.faults.insert(pos, kind.clone());
